@@ -32,6 +32,12 @@ Theorem C20_echo_unchanged :
 Proof. exact echo_unchanged. Qed.
 Print Assumptions C20_echo_unchanged.
 
+(* the echo buffer: sanitize_utf8 asks for length * 4 + 1 bytes; what it writes, terminator included, always fits *)
+Theorem C20_echo_buffer_suffices :
+  forall l, (length (sanitize l) + 1 <= length l * 4 + 1)%nat.
+Proof. exact sanitize_fits. Qed.
+Print Assumptions C20_echo_buffer_suffices.
+
 Example C20_example :
   file_lines (bs "a@b.c" ++ [x0d; x0a] ++ bs "#x" ++ [x0a; x0a] ++ bs " y ") = [bs "a@b.c" ++ [x0d; x0a]; bs "#x" ++ [x0a]; [x0a]; bs " y "] /\
   trim_line (bs "a@b.c" ++ [x0d; x0a]) = Some (bs "a@b.c") /\ trim_line (bs "#x" ++ [x0a]) = None /\
